@@ -115,7 +115,7 @@ Inductive stmt :=
 
 (* every unknown of an execution: the environment *)
 Record oracle := { o_flag : bool;
-                   o_bool : nat -> bool;        (* k-th evaluation of an opaque condition *)
+                   o_bool : nat -> nat -> bool; (* opaque condition number i, at its k-th evaluation overall *)
                    o_answer : nat -> string;    (* answer to the k-th prompt *)
                    o_value : nat -> value;      (* value bound by the k-th assignment *)
                    o_iters : nat -> nat;        (* number of iterations of the k-th loop execution *)
@@ -147,8 +147,8 @@ Fixpoint eval_cond (o : oracle) (st : state) (c : cond) : bool * state :=
       end
   | CIsInst v s p =>
       (match s_rho st v with VPath _ KStr => s | VPath _ KPathObj => p | VHandle => false end, st)
-  | COpaque _ =>
-      (o_bool o (s_cb st),
+  | COpaque i =>
+      (o_bool o i (s_cb st),
        {| s_fs := s_fs st; s_rho := s_rho st; s_prompts := s_prompts st; s_writes := s_writes st;
           s_cb := S (s_cb st); s_ca := s_ca st; s_cv := s_cv st; s_ci := s_ci st; s_cw := s_cw st |})
   | CNot a => let '(b, st') := eval_cond o st a in (negb b, st')
@@ -156,8 +156,8 @@ Fixpoint eval_cond (o : oracle) (st : state) (c : cond) : bool * state :=
   | COr a b => let '(x, st') := eval_cond o st a in if x then (true, st') else eval_cond o st' b
   end.
 
-Inductive result := Normal (st : state) | Stopped (st : state).
-Definition final (r : result) : state := match r with Normal s | Stopped s => s end.
+Inductive result := Normal (st : state) | Stopped (raised : bool) (st : state).
+Definition final (r : result) : state := match r with Normal s | Stopped _ s => s end.
 
 Fixpoint iterate (f : state -> result) (k : nat) (st : state) : result :=
   match k with
@@ -176,7 +176,8 @@ Fixpoint exec (o : oracle) (s : stmt) (st : state) {struct s} : result :=
                     s_writes := p :: s_writes st;
                     s_cb := s_cb st; s_ca := s_ca st; s_cv := s_cv st; s_ci := s_ci st; s_cw := S (s_cw st) |}
       end
-  | SReturn | SRaise => Stopped st
+  | SReturn => Stopped false st
+  | SRaise => Stopped true st
   | SAssign v =>
       Normal {| s_fs := s_fs st; s_rho := rho_set (s_rho st) v (o_value o (s_cv st)); s_prompts := s_prompts st;
                 s_writes := s_writes st;
@@ -285,7 +286,7 @@ Definition guarded_b (s : stmt) : bool := is_some (aexec 8 s a0).
 Definition nth_or {A} (l : list A) (d : A) (k : nat) : A := nth k l d.
 Definition mk_oracle (flag : bool) (bools : list bool) (answers : list string) (values : list value)
            (iters : list nat) : oracle :=
-  {| o_flag := flag; o_bool := nth_or bools false; o_answer := nth_or answers "";
+  {| o_flag := flag; o_bool := fun i _ => nth_or bools false i; o_answer := nth_or answers "";
      o_value := nth_or values VHandle; o_iters := nth_or iters 0; o_bytes := fun k => S k |}.
 Definition fs_of (existing : list path) : fsys := fun p => if mem p existing then Some 0 else None.
 
@@ -319,3 +320,37 @@ Fixpoint list_string_eqb (a b : list string) : bool :=
   | x :: r, y :: s => String.eqb x y && list_string_eqb r s
   | _, _ => false
   end.
+
+(* ------------------------------------------------------------------------------------------ *)
+(* "and in those cases the write happens": bounded enumeration for the single-file writers       *)
+(* ------------------------------------------------------------------------------------------ *)
+Fixpoint tapes (n : nat) : list (list bool) :=
+  match n with 0 => [[]] | S k => flat_map (fun t => [true :: t; false :: t]) (tapes k) end.
+
+Definition live_answers : list string := ["y"; "n"; ""; "Y"; "yes"; " y"; "y "].
+
+(* one environment: the argument names file 0 (as str or Path), which exists or not; one answer;
+   the opaque conditions follow the tape.  Unless the writer raises (invalid input), file 0 is written
+   iff confirm_overwrite is false, or the file does not exist, or the answer is exactly "y" *)
+Definition live_case (s : stmt) (flag ex : bool) (ans : string) (k : vkind) (tape : list bool) : bool :=
+  let f0 := fs_of (if ex then [0] else []) in
+  let r := exec (mk_oracle flag tape [ans] [] []) s (init_state f0 (fun _ => VPath 0 k)) in
+  match r with
+  | Stopped true _ => true
+  | _ => Bool.eqb (mem 0 (s_writes (final r))) (negb flag || negb ex || String.eqb ans "y")
+  end.
+
+Definition live_b (n : nat) (s : stmt) : bool :=
+  forallb (fun flag => forallb (fun ex => forallb (fun ans => forallb (fun k => forallb (fun tape =>
+    live_case s flag ex ans k tape) (tapes n)) [KStr; KPathObj]) live_answers) [true; false]) [true; false].
+
+Definition single_file_writers : list string :=
+  ["write_tum_trajectory_file"; "write_kitti_poses_file"; "save_res_file"; "save_df_as_table";
+   "PlotCollection.serialize"].
+Definition is_single_file (name : string) : bool := existsb (String.eqb name) single_file_writers.
+
+(* the flag a command-line call site passes, as a function of --no_warnings *)
+Definition cli_flag (c : call_site) (no_warnings : bool) : option bool :=
+  match cs_arg c with ArgNotNoWarnings => Some (negb no_warnings) | _ => None end.
+Definition covers_modules (cs : list call_site) : bool :=
+  forallb (fun m => existsb (fun c => String.eqb (cs_module c) m) cs) expected_cli_modules.
